@@ -26,6 +26,10 @@ BinFails(e) ==
        THEN F(e.outcome = "value" /\ e.r.t = "Boolean" /\ (e.r.n = 1) = ((n = "Equal") = (a.t = "Null" /\ b.t = "Null")),
               "equality with Null is wrong")
   ELSE IF a.t = "Array" /\ n \in {"Equal", "NotEqual"} THEN ""            \* an error is accepted, a crash is not
+  \* "time-span and date-time arithmetic": which of + - * / the library defines on a time span or a date-time first operand is not
+  \* listed; where it defines none an error is required, where it delivers a value it is a time span or a date-time
+  ELSE IF ~Supported(n, a.t) /\ a.t \in {"TimeSpan", "DateTime"} /\ n \in {"Add", "Sub", "Mul", "Div"}
+       THEN F(e.outcome = "error" \/ (e.outcome = "value" /\ e.r.t \in {"TimeSpan", "DateTime"}), "arithmetic on a time span / date-time yielded neither an error nor a time value")
   ELSE IF ~Supported(n, a.t) THEN F(e.outcome = "error", "an operator that is undefined for the first operand's type did not yield an error")
   ELSE IF n = "Pow" /\ b.t # a.t /\ b.t \notin {"Null"} /\ ~(b.t \in Numeric) THEN ""   \* which conversion Pow applies to odd operands is left open
   ELSE IF n # "Pow" /\ ~ConvOK(e.mgr, b.t, ConvTarget(n, a.t))
@@ -63,6 +67,9 @@ UnFails(e) ==
           \o (IF e.outcome = "value" /\ Exact(a) /\ Exact(e.r)
               THEN F(IF a.t = "Boolean" THEN e.r.n = 1 - a.n ELSE e.r.n = -a.n - 1, "NOT is not the complement") ELSE ""))
   ELSE (IF a.t = "Null" THEN F(e.outcome = "value" /\ e.r.t = "Null", "Null does not propagate through unary minus")
+        \* (negating a time span is time-span arithmetic: an error, or the negated span)
+        ELSE IF a.t = "TimeSpan" THEN F(e.outcome = "error" \/ (e.outcome = "value" /\ e.r.t = "TimeSpan" /\ (Exact(a) => Exact(e.r) /\ Num8(e.r) = -Num8(a))),
+                                        "unary minus of a time span is neither an error nor the negated span")
         ELSE IF a.t \notin Numeric THEN F(e.outcome = "error", "unary minus of an unsupported type did not yield an error")
         ELSE F(e.outcome = "value" /\ e.r.t = a.t, "unary minus changed the type")
           \o (IF e.outcome = "value" /\ Exact(a) THEN F(Exact(e.r) /\ Num8(e.r) = -Num8(a), "unary minus is not the negation") ELSE ""))
